@@ -18,9 +18,11 @@ mod c14;
 mod c15;
 mod c16;
 mod c17;
+mod c18;
 mod e4;
 mod e2;
 mod c19;
+mod c20;
 mod e1;
 mod e3;
 mod replay;
@@ -68,7 +70,18 @@ fn main() {
         "C15" => c15::run(tier, replay),
         "C16" => c16::run(tier, replay),
         "C17" => c17::run(tier, replay),
+        "C18" => c18::run(tier, replay),
+        "e4-shard" => {
+            let t = if args[3] == "thorough" { zvcore::evidence::Tier::Thorough } else { zvcore::evidence::Tier::Quick };
+            let (i, n) = (args[4].parse().unwrap(), args[5].parse().unwrap());
+            match args[2].as_str() {
+                "C18" => c18::shard(t, i, n, true),
+                "C20" => c20::shard(t, i, n),
+                _ => 2,
+            }
+        }
         "C19" => c19::run(tier, replay),
+        "C20" => c20::run(tier, replay),
         other => {
             eprintln!("unknown property id {}", other);
             2
